@@ -38,7 +38,7 @@ CONSTANTS
   UseWrb = {wrb}
   UseCancel = {cancel}
   CallerIds <- {cids}
-  Fixed = FALSE
+  PreHs = {prehs}
 VIEW view
 INVARIANT TypeOk
 INVARIANT NoLostWakeup
@@ -51,6 +51,8 @@ def sink_decode_for(params):
     def dec(tokens, role):
         ver, cap = params["ver"], params["cap"]
         cfg = dict(role=role, ver=ver, max_send=cap, gate_pub=1)
+        if params.get("prehs") == "TRUE":
+            cfg["gate_hs"] = 1      # the handshake service answers at token "h": sends before that use Handshake::sink()
         cmds = [handshake(role, ver, connack={"rm": cap} if ver == 5 else None)]
         for t in tokens:
             c = t[0]
@@ -72,6 +74,8 @@ def sink_decode_for(params):
                 cmds.append({"c": "rdrop", "s": int(t[1:])})
             elif c == "w":
                 cmds.append({"c": "wrb", "on": int(t[1:])})
+            elif c == "h":
+                cmds.append({"c": "complete", "j": 0, "o": "ok"})
             else:
                 raise ValueError(f"unknown model token {t}")
         cmds.append({"c": "settle"})
@@ -91,6 +95,8 @@ def sink_configs(tier):
             (f"v{ver}_bad", dict(ver=ver, cap=2, kinds="K_q1q2", idmax=2, uses=1, bad=1, wrb=F, cancel=F, cids="Ids0"), ["server", "client"]),
             (f"v{ver}_subs", dict(ver=ver, cap=1, kinds="K_subs", idmax=3, uses=1, bad=0, wrb=F, cancel=T, cids="Ids0"), ["client"]),
             (f"v{ver}_ids", dict(ver=ver, cap=2, kinds="K_q1q1", idmax=2, uses=2, bad=0, wrb=F, cancel=F, cids="Ids01"), ["server"]),
+            # senders that queue inside the handshake service, before set_cap() opens the window
+            (f"v{ver}_prehs", dict(ver=ver, cap=1, kinds="K_rq1q1", idmax=3, uses=1, bad=0, wrb=F, cancel=T, cids="Ids0", prehs=T), ["server"]),
         ]
         if tier == "thorough":
             base += [
@@ -99,8 +105,10 @@ def sink_configs(tier):
                 (f"v{ver}_q2x3", dict(ver=ver, cap=3, kinds="K_q2q2q2", idmax=3, uses=1, bad=0, wrb=F, cancel=F, cids="Ids0"), ["server"]),
                 (f"v{ver}_mix4", dict(ver=ver, cap=2, kinds="K_mixed4", idmax=3, uses=1, bad=0, wrb=T, cancel=F, cids="Ids0"), ["client"]),
                 (f"v{ver}_badsub", dict(ver=ver, cap=2, kinds="K_subq1", idmax=2, uses=1, bad=1, wrb=F, cancel=F, cids="Ids0"), ["client"]),
+                (f"v{ver}_prehs2", dict(ver=ver, cap=2, kinds="K_rq1q2", idmax=3, uses=1, bad=0, wrb=F, cancel=T, cids="Ids0", prehs=T), ["server"]),
             ]
         for name, params, roles in base:
+            params.setdefault("prehs", F)
             cs.append((name, SINK_CFG.format(**params), "MC_Sink", sink_decode_for(params), roles))
     return cs
 
@@ -362,14 +370,21 @@ def c16_templates(ver):
     return t
 
 
-def c16_decode_for(ver, role):
+C16_QOS2 = [6, 7, 13, 14, 12, 15, 20, 4]     # q2 id1, q2 id2, pubrel 1, pubrel 2, pubrec 1, pubcomp 1, pingreq, q1 id1
+
+
+def c16_decode_for(ver, role, subset=None):
     tmpl = c16_templates(ver)
+    if subset:
+        tmpl = [tmpl[i - 1] for i in subset]
 
     def dec(tokens, variant):
         cfg = dict(role=role, ver=ver, gate_pub=0, gate_proto=0, max_qos=2, max_receive=16)
         cmds = []
         if variant != "nohs":
             cmds.append(handshake(role, ver))
+        if variant == "slowctl":
+            cfg["gate_proto"] = 1               # protocol handlers answer only when the run drains
         if variant == "busy":
             cmds += [{"c": "gate", "what": "pub", "on": 1},
                      {"c": "in", "p": {"t": "publish", "q": 1, "id": 9, "topic": "t", "plen": 1}},
@@ -399,10 +414,14 @@ def c16_configs(tier):
                 cs.append((f"v{ver}{role[0]}_l2", PKTSEQ_CFG.format(nt=nt, maxlen=2, minlen=1), "PktSeq",
                            c16_decode_for(ver, role), ["idle", "busy", "nohs"]))
                 cs.append((f"v{ver}{role[0]}_l3", PKTSEQ_CFG.format(nt=nt, maxlen=3, minlen=3), "PktSeq",
-                           c16_decode_for(ver, role), ["idle", "busy"]))
+                           c16_decode_for(ver, role), ["idle", "busy"] + (["slowctl"] if role == "server" else [])))
             else:
                 cs.append((f"v{ver}{role[0]}_l3", PKTSEQ_CFG.format(nt=nt, maxlen=3, minlen=1), "PktSeq",
-                           c16_decode_for(ver, role), ["idle", "busy", "nohs"]))
+                           c16_decode_for(ver, role), ["idle", "busy", "nohs"] + (["slowctl"] if role == "server" else [])))
+            if role == "server":
+                # the QoS 2 exchange against slow protocol handlers: every sequence up to 4 (5) over 8 packets
+                cs.append((f"v{ver}s_q2", PKTSEQ_CFG.format(nt=len(C16_QOS2), maxlen=4 if tier == "quick" else 5, minlen=2), "PktSeq",
+                           c16_decode_for(ver, role, C16_QOS2), ["slowctl", "busy"], 1000000))
     return cs
 
 
@@ -500,6 +519,7 @@ def c15_templates(role):
         [{"c": "arm", "ctl": 1, "o": "own", "code": 0x8b}, {"c": "mark", "e": "app_disc"}],
         [{"c": "arm", "o": "err"}, pub(q=1, id=7)],
         [cause("alias"), pub(q=0, topic="", alias=2)],
+        [cause("alias"), pub(q=0, topic="", alias=9)],           # unmapped alias that is also above the maximum
         [{"c": "in", "p": {"t": "disconnect"}}],
         [{"c": "in", "p": {"t": "disconnect", "rc": 4, "sei": 10}}],
         [{"c": "in", "p": {"t": "disconnect", "sei": 0}}],      # Session Expiry Interval present with value 0
@@ -583,7 +603,7 @@ def c12_decode_for(kind, maxrecv, size):
         nid = 1
         streaming = 0
         for t in tokens:
-            if streaming > 0 and t in (1, 2, 3, 4, 6, 9):
+            if streaming > 0 and t in (1, 2, 3, 4, 6, 9, 10):
                 # a well-formed peer finishes the payload before the next packet
                 cmds.append({"c": "in", "p": {"t": "payload", "n": streaming}})
                 streaming = 0
@@ -614,6 +634,9 @@ def c12_decode_for(kind, maxrecv, size):
                 cmds.append({"c": "complete", "j": 0, "o": "ok", "read": "all"})
             elif t == 8:
                 cmds.append({"c": "complete", "j": 1, "o": "ok", "read": "all"})
+            elif t == 10:   # re-transmission of a publish whose identifier is still in use
+                if nid > 1:
+                    cmds.append({"c": "in", "p": {"t": "publish", "q": 1, "id": 1, "topic": "t", "plen": 1, "dup": 1}})
             elif t == 9:    # streamed QoS 1 publish that alone is larger than the byte limit: header + 4 of 70 bytes
                 if streaming == 0:
                     cmds.append({"c": "in", "p": {"t": "publish", "q": 1, "id": nid, "topic": "t", "plen": 70, "send": 4}}); nid += 1
@@ -640,6 +663,10 @@ def c12_configs(tier):
     for kind, mr, size in [("v3s", 0, 40), ("v5s", 2, 40), ("v3s", 2, 40)]:
         cs.append((f"{kind}_r{mr}_s{size}_big", PKTSEQ_CFG.format(nt=9, maxlen=3 if tier == "quick" else 4, minlen=2), "PktSeq",
                    c12_decode_for(kind, mr, size), [None], 100000))
+    # re-transmitted identifiers (token 10) against the Receive Maximum: every sequence up to 4 (quick) / 5
+    for kind, mr in [("v5s", 1), ("v5s", 2), ("v5c", 1)]:
+        cs.append((f"{kind}_r{mr}_dup", PKTSEQ_CFG.format(nt=10, maxlen=4 if tier == "quick" else 5, minlen=3), "PktSeq",
+                   c12_decode_for(kind, mr, 0), [None], 4000 if tier == "quick" else 100000))
     return cs
 
 
@@ -970,6 +997,10 @@ def c19_firsts():
         ({"t": "connect", "level": 4, "ver": 3, "ka": 10}, (3,)),
         ({"t": "connect", "level": 5, "ver": 5, "ka": 10, "rm": 3}, (5,)),
         ({"t": "connect", "level": 5, "ver": 5, "ka": 0}, (5,)),
+        ({"t": "connect", "level": 5, "ver": 5, "ka": 21846}, (5,)),       # 1.5 x does not fit 16 bit any more above 43690
+        ({"t": "connect", "level": 5, "ver": 5, "ka": 43691}, (5,)),
+        ({"t": "connect", "level": 5, "ver": 5, "ka": 65535}, (5,)),
+        ({"t": "connect", "level": 4, "ver": 3, "ka": 65535}, (3,)),
         ({"t": "connect", "level": 3, "ver": 3, "ka": 10}, ()),             # unknown level
         ({"t": "connect", "level": 6, "ver": 5, "ka": 10}, ()),             # unknown level
         ({"t": "connect", "level": 4, "ver": 3, "ka": 10, "proto": "MQTX"}, ()),   # unknown protocol name
@@ -1189,7 +1220,33 @@ def c20_decode_for(ver, cka, rate, rmax):
     frame = {"t": "publish", "q": 0, "topic": "t" * 200, "plen": 0}
     flen = 205 if ver == 3 else 206      # 30 ca 01 00 c8 't'*200 [00]
 
+    def dec_busy(tokens):
+        """handlers busy: the first complete packet is a QoS 1 PUBLISH whose handler stays busy until the end
+        of the pattern with an in-flight limit of one, so the dispatcher pauses reading; a peer that keeps
+        sending complete packets more often than the keep-alive period must not be ended by a timer"""
+        n, pkts, part_start, last_bytes = c20_scan(tokens)
+        if rate or "P" not in tokens or any(t.startswith("B") or t == "Q" for t in tokens):
+            return None, None
+        gaps = [b - a for a, b in zip(pkts, pkts[1:])] + [n - pkts[-1]]
+        if max(gaps) > ka - 2 or n < ka + 1:
+            return None, None
+        cfg = dict(role="server", ver=ver, gate_pub=1, max_receive=1, max_receive_size=1 if ver == 5 else 0)
+        cmds = [{"c": "in", "p": {"t": "connect", "ka": cka}}, {"c": "mark", "k": "expect_alive", "n": 0, "r": 0}]
+        first = True
+        for tk in tokens:
+            if tk == "T":
+                cmds.append({"c": "sleep", "ms": 1000})
+            elif first:
+                cmds.append({"c": "in", "p": {"t": "publish", "q": 1, "id": 1, "topic": "t", "plen": 1}})
+                first = False
+            else:
+                cmds.append({"c": "in", "p": {"t": "pingreq"}})
+        cmds += [{"c": "complete", "j": 0, "o": "ok"}, {"c": "sleep", "ms": 1000}]
+        return cfg, cmds
+
     def dec(tokens, variant):
+        if variant == "busy":
+            return dec_busy(tokens)
         tokens = c20_pad(tokens, ka, rate, 1)
         exp = c20_expect(tokens, ka, rate, 1, rmax)
         if exp is None:
@@ -1232,7 +1289,7 @@ def c20_configs(tier):
             ka = cka + cka // 2
             cs.append((f"v{ver}_ka{cka}_r{rate}",
                        TIMERS_CFG.format(ka=ka, rate=rate, rmax=rmax, maxt=maxt, fixed="TRUE", dead="INVARIANT Dead\nINVARIANT NoNegative\nINVARIANT Slow"),
-                       "Timers", c20_decode_for(ver, cka, rate, rmax), [None]))
+                       "Timers", c20_decode_for(ver, cka, rate, rmax), [None] if rate else [None, "busy"]))
     return cs
 
 
@@ -1254,7 +1311,12 @@ def c20_select(name, hists, tier, seed, quota):
         pieces = any(t.startswith("B") for t in toks) and any(
             t in ("P", "Q") and any(x.startswith("B") or x == "Q" for x in toks[:i]) for i, t in enumerate(toks))
         key = hashlib.sha256((h + str(seed)).encode()).hexdigest()
-        if exp and (exp[0] in ("expect_ka", "expect_read") or pieces):
+        n, pkts, _ps, _lb = c20_scan(toks)
+        busyable = (rate == 0 and "P" in toks and all(t in ("P", "T") for t in toks) and n >= ka + 1
+                    and max([y - x for x, y in zip(pkts, pkts[1:])] + [n - pkts[-1]]) <= ka - 2)
+        if busyable:
+            prio.append(("0" + key, h))          # steady traffic: also replayed with a busy handler
+        elif exp and (exp[0] in ("expect_ka", "expect_read") or pieces):
             prio.append((key, h))
         else:
             rest.append((key, h))
